@@ -249,6 +249,31 @@ def run(spec, tier, seed, replay_path=None):
                               "signature": "crash-or-hang", "what": "the real code crashed the process or did not return on this case"})
             if ex["driver_rc"] != 0:
                 ctx["broken"].append({"layer": "L2", "what": "driver failed rc=%s: %s" % (ex["driver_rc"], ex["driver_err"])})
+            if mism and (spec.monitor or getattr(spec, "nondeterministic", False)) and len(mism) <= 25:
+                # real executions of concurrent/timed code are not fully determined by the script (goroutine start order
+                # at one virtual instant, select choices): a lone line the monitor could not explain must reproduce when
+                # the same line is executed again, otherwise it is recorded but not counted as a broken correspondence
+                confirmed, flukes = [], []
+                for m in mism:
+                    if any(f["line"] == m["line"] for f in fails):
+                        confirmed.append(m)
+                        continue
+                    again = False
+                    for _ in range(3):
+                        path = os.path.join(rundir, "confirm.txt")
+                        open(path, "w").write(m["script"] + "\n")
+                        ex3 = execute(spec, rundir + "-confirm", "quick", seed, replay=path)
+                        if "build_error" in ex3 or not ex3.get("script"):
+                            again = True
+                            break
+                        m3, f3, _, _ = analyse(spec, ex3)
+                        if m3 or f3:
+                            again = True
+                            break
+                    (confirmed if again else flukes).append(m)
+                cov["irreproducible_mismatches"] = [{"script": x["script"][:300], "model": x["model"][:200]} for x in flukes[:5]]
+                cov["irreproducible_mismatch_count"] = len(flukes)
+                mism = confirmed
             if mism:
                 ctx["broken"].append({"layer": "L2", "what": "correspondence %s: %d of %d lines differ between implementation and model" % (spec.harness, len(mism), n),
                                       "first": mism[:5]})
@@ -391,6 +416,7 @@ def run(spec, tier, seed, replay_path=None):
         import shutil
         shutil.rmtree(rundir, ignore_errors=True)
         shutil.rmtree(rundir + "-deep", ignore_errors=True)
+        shutil.rmtree(rundir + "-confirm", ignore_errors=True)
     if violations == 0:
         print("OK property=%s tier=%s obligations=%d/%d correspondence=%d lines, 0 mismatches, oracle failures=0%s" % (
             pid, tier, l1["discharged"], l1["obligations"], n, " (known findings: %d)" % len(known_hit) if known_hit else ""))
